@@ -623,7 +623,20 @@ def sendtx_history(seed, n=120):
     fees = rand_fees(rng)
     cmds = [{"c": "tick", "dt": 100000}]
     others = [x for x in ["regtest", "mainnet", "testnet", "Regtest", "Mainnet", "Testnet"]]
+    # (regtest, where blocks can travel through the heartbeat) the canister falls behind the announced headers in
+    # the middle third of the history, with the sync rule switched on: send_transaction is exempt from it
+    lag = []
+    if net == "regtest":
+        b = 1
+        for _ in range(6):
+            b = w.mine(b, ntx=0)
+            lag.append(b)
     for i in range(n):
+        if lag and i == n // 3:
+            cmds += [{"c": "set_config", "d": {"gate": True, "api": True}}, {"c": "offer", "initial": complete(lag[:1], lag[1:])},
+                     {"c": "hb"}, {"c": "hb"}, q("info"), q("balance", addr=1, mc=-1)]
+        if lag and i == (2 * n) // 3:
+            cmds += [{"c": "offer", "initial": complete(lag[1:])}, {"c": "hb"}, {"c": "hb"}, {"c": "hb"}, q("info"), q("balance", addr=1, mc=-1)]
         if rng.random() < 0.06:
             cmds.append({"c": "set_config", "d": rng.choice([{"api": False}, {"api": True}, {"api": True}, {"gate": True}, {"fees": rand_fees(rng)}])})
         cmds += send_tx_cmds(rng, fees if rng.random() < 0.5 else None, 1, nets=[net] * 6 + others)
